@@ -169,11 +169,41 @@ pub fn bspldnev_single_dual2(
 
 /// A piecewise polynomial spline of given order and knot sequence.
 #[derive(Clone, Debug, Deserialize, Serialize)]
+#[serde(try_from = "PPSplineDataModel<T>")]
+#[serde(bound(deserialize = "T: Deserialize<'de>"))]
 pub struct PPSpline<T> {
     k: usize,
     t: Vec<f64>,
     c: Option<Array1<T>>,
     n: usize,
+}
+
+/// Deserialization data model for `PPSpline`: the same fields, validated on conversion.
+#[derive(Deserialize)]
+struct PPSplineDataModel<T> {
+    k: usize,
+    t: Vec<f64>,
+    c: Option<Array1<T>>,
+    n: usize,
+}
+
+impl<T> std::convert::TryFrom<PPSplineDataModel<T>> for PPSpline<T> {
+    type Error = String;
+
+    fn try_from(model: PPSplineDataModel<T>) -> Result<Self, Self::Error> {
+        if model.t.len() < 2 || zip(&model.t[1..], &model.t[..(model.t.len() - 1)]).any(|(a, b)| a < b) {
+            return Err("`t` must be a non-decreasing knot sequence.".to_string());
+        }
+        if model.k > model.t.len() || model.n != model.t.len() - model.k {
+            return Err("`n` must equal the number of knots less the order `k`.".to_string());
+        }
+        Ok(PPSpline {
+            k: model.k,
+            t: model.t,
+            c: model.c,
+            n: model.n,
+        })
+    }
 }
 
 impl<T> PPSpline<T> {
